@@ -236,13 +236,36 @@ func c08(deadline time.Time) (int, int) {
 	}
 	runs := 0
 	for round := 0; round == 0 || time.Now().Before(deadline); round++ {
+		// a module registered just now: every round has a "first import in the process" that
+		// all goroutines reach together, right after the start barrier
+		fresh := fmt.Sprintf("c08fresh%d", round)
+		py.RegisterModule(&py.ModuleImpl{
+			Info:    py.ModuleInfo{Name: fresh, FileDesc: "<" + fresh + ">"},
+			CodeSrc: "counter = 0\ndef bump():\n    global counter\n    counter = counter + 1\n",
+		})
+		imp, err := py.Compile("import "+fresh+" as m\nm.bump()\nm.counter = m.counter + TAG\n", "<c08imp>", py.ExecMode, 0, true)
+		if err != nil {
+			panic(err)
+		}
 		var wg sync.WaitGroup
+		start := make(chan struct{})
 		for g := 0; g < 8; g++ {
 			wg.Add(1)
 			go func(g int) {
 				defer wg.Done()
-				ctx := py.NewContext(py.ContextOpts{SysArgs: []string{"prog"}, SysPaths: []string{"."}})
+				// contexts with and without search paths / arguments
+				opts := py.ContextOpts{SysArgs: []string{"prog"}, SysPaths: []string{"."}}
+				if g%2 == 1 {
+					opts = py.ContextOpts{}
+				}
+				ctx := py.NewContext(opts)
 				defer ctx.Close()
+				<-start
+				gl0 := py.StringDict{"TAG": py.Int(g + 1)}
+				if _, err := ctx.RunCode(imp, gl0, gl0, nil); err != nil {
+					fmt.Fprintf(os.Stderr, "WARNING: DATA RACE (observed as an unexpected exception in an isolated context): %v\n", err)
+					os.Exit(66)
+				}
 				for k := range codes {
 					c := codes[(k+g)%len(codes)]
 					gl := py.StringDict{"TAG": py.Int(g + 1)}
@@ -253,8 +276,9 @@ func c08(deadline time.Time) (int, int) {
 				}
 			}(g)
 		}
+		close(start)
 		wg.Wait()
-		runs += 8 * len(codes)
+		runs += 8 * (len(codes) + 1)
 	}
 	return runs, len(codes)
 }
